@@ -2,6 +2,7 @@
 //! observes into NDJSON; every judgement is a TLA+ formula evaluated by TLC (DESIGN.md §3).
 
 mod cli;
+mod docx;
 mod extra;
 mod proj;
 mod universe;
@@ -829,6 +830,34 @@ fn main() {
                 writeln!(out, "{}", json!({"id": v["id"], "perr": perr, "real": res})).unwrap();
             }
             out.flush().unwrap();
+        }
+        Some("docs") => {
+            // Doc IR export for the replay through DocRender.tla: fixtures and universe elements up to --max-bytes
+            let (elems, _) = build_universe(&a);
+            let widths: Vec<usize> = a.get("widths", "0,40,120").split(',').map(|x| x.parse().unwrap()).collect();
+            let tab = a.num("tab", 2) as usize;
+            let take = a.num("take", 400) as usize;
+            let shards = a.num("shards", 6) as usize;
+            let outdir = PathBuf::from(a.get("outdir", "work/docs"));
+            fs::create_dir_all(&outdir).unwrap();
+            let evs: Vec<Value> = elems.par_iter().take(take * 4).flat_map_iter(|e| docx::doc_events(&e.id, &e.text, tab, &widths)).collect();
+            let evs: Vec<Value> =
+                evs.into_iter().filter(|e| e["nodes"].as_u64().unwrap() <= a.num("max-nodes", 4000)).take(take * widths.len()).collect();
+            let mut ws: Vec<BufWriter<fs::File>> =
+                (0..shards).map(|i| BufWriter::new(fs::File::create(outdir.join(format!("shard-{i:02}.ndjson"))).unwrap())).collect();
+            let (mut nodes, mut unknown) = (0u64, 0u64);
+            for (i, e) in evs.iter().enumerate() {
+                nodes += e["nodes"].as_u64().unwrap();
+                unknown += e["unknown"].as_u64().unwrap();
+                writeln!(ws[i % shards], "{}", e).unwrap();
+            }
+            for w in ws.iter_mut() {
+                w.flush().unwrap();
+            }
+            let s = json!({"universe": a.get("universe", ""), "elements": evs.len(), "events": evs.len(), "format_calls": evs.len() * (widths.len() + 1),
+                           "nontrivial_events": evs.len(), "universe_stats": {"doc_nodes": nodes, "unopened_closures": unknown}, "samples": []});
+            fs::write(outdir.join("summary.json"), s.to_string()).unwrap();
+            println!("{}", s);
         }
         Some("ranges") => cmd_ranges(&a),
         Some("hist") => cmd_hist(&a),
